@@ -228,6 +228,8 @@ def make_converter(ty: IntoConverter, handlers: ConverterHandlers = ConverterHan
 
     # handle annotations
     if base is t.Annotated:
+        if not len(args):
+            raise TypeError("'Annotated' needs a type to annotate")
         return _annotated_converter(args[0], args[1:], handlers=handlers)
 
     # union converter
